@@ -291,6 +291,16 @@ def c11_models(tier):
     pk = {"CH": [12, 12, 16, 12, 12, 8, 8], "S1": [8, 8, 12, 12, 8, 8, 12]}     # the chain-keyed quote comes first at every stamp
     evk = bars(grid, pk, {"S1": 0, "CH": 4}) + ev[-3:]
     ms.append(full_model("roll-chainkey", cs, ["S1", "CH"], grid, evk, tg[:3], lats=(0,), delays=(0,), fees="free", maxsteps=5, **kw))
+    # two episodes on one environment: the second one starts before the roll again, with the chain already resolved past it
+    ms.append(full_model("roll-two-episodes", cs, ["S1", "CH"], grid, ev, tg[:2], lats=(0,), delays=(0,), fees="free", maxsteps=4,
+                         reset_anywhere=True, **kw))
+    # a step landing exactly on a last-trading instant, with an earlier-stamped quote inserted after the quotes of that instant
+    # (events of one timestep are delivered in time order whatever order they were loaded in)
+    g3 = [36000 + DAY * 1, 36000 + DAY * 2, DAY * 3, 36000 + DAY * 4, 36000 + DAY * 10]
+    p3 = {"S1": [8, 8, 12, 12, 8], "H19": [12, 12, 16, 12, 12], "M19": [12, 16, 16, 12, 8], "U19": [16, 16, 12, 12, 12]}
+    ev3 = bars(g3, p3, {"S1": 0, "H19": 4, "M19": 4, "U19": 0}) + ev[-3:]
+    ev3.append(Rec(t=36000 + DAY * 2 + 7200, kind="q", c="U19", bid=16, ask=16))
+    ms.append(full_model("roll-at-ltd", cs, ["S1", "CH"], g3, ev3, tg[:3], lats=(0,), delays=(0,), fees="free", maxsteps=4, **kw))
     # whole lots only: a targeted line whose imbalance is less than one lot (nothing to trade there) sits next to the chain
     # at the roll; the old lead is still closed and the target re-established in the new lead
     pw = {"S1": [8, 8, 8, 8, 8, 8, 8], "H19": [12, 12, 12, 12, 12, None, None], "M19": [12, 12, 12, 12, 16, 12, 12],
